@@ -353,14 +353,14 @@ func main() {
 	fs.Int64Var(&opt.Steps, "steps", 20_000_000, "")
 	fs.IntVar(&opt.MaxPaths, "maxpaths", 0, "")
 	fs.IntVar(&opt.Timeout, "timeout", 0, "per-unit seconds")
-	fs.StringVar(&opt.Solver, "solver", "z3", "")
+	fs.StringVar(&opt.Solver, "solver", "z3-new", "")
 	fs.IntVar(&opt.QTimeout, "qtimeout", 10000, "per-query ms")
 	fs.StringVar(&opt.Out, "out", "", "")
 	fs.BoolVar(&opt.Verbose, "v", false, "")
 	fs.IntVar(&opt.MaxDepth, "maxdepth", 400, "")
 	fs.IntVar(&opt.RLimit, "rlimit", 0, "z3 resource limit per query (deterministic unknowns)")
 	var fallbacks string
-	fs.StringVar(&fallbacks, "fallback", "z3-new,cvc5-int", "solvers tried when the primary answers unknown")
+	fs.StringVar(&fallbacks, "fallback", "z3,cvc5-int", "solvers tried when the primary answers unknown")
 	fs.IntVar(&opt.FallbackMs, "fbtimeout", 60000, "fallback per-query ms")
 	fs.Parse(os.Args[2:])
 	if fallbacks != "" {
